@@ -82,6 +82,8 @@ THEOREMS = [
     "Verif.C13.cubic_jac_eq_implicit",
     "Verif.C13.cardano_root_is_simple_root",
     "Verif.C13.cubic_root_hasDerivAt",
+    "Verif.C13.efjc_distance_jac",
+    "Verif.C13.twlc_distance_jac",
     "Verif.C13.OF.jac_Lp_hasDerivAt",
     "Verif.C13.OF.jac_Lc_hasDerivAt",
     "Verif.C13.OF.jac_St_hasDerivAt",
